@@ -12,7 +12,7 @@ def run(ctx) -> Report:
     if not ctx.replay:
         P.run_mc(rep, ctx, "C13")
     n = 1 if ctx.quick else 12
-    P.conformance(rep, ctx, "C13", {"reset": 800 * n, "oor-race": 120 * n, "late-lookup": 100 * n})
+    P.conformance(rep, ctx, "C13", {"reset": 800 * n, "oor-race": 120 * n, "late-lookup": 100 * n, "reset-race": 100 * n})
     rep.extra.update(
         bounds="committed offset absent / inside / below log start / beyond log end; policies earliest/latest/none; both isolation "
                "levels; group (OffsetFetch) and group-less; ListOffsets v0..v3 brokers; lookups failing with retriable errors, "
